@@ -4,7 +4,7 @@ from rrect_common import *
 
 RULE = ('rrect correspondence: rr_confine (CornerRadii::confine via confine_radii()) on random radii/sizes: small (0..12 / 0..8), medium, and up to 65535 '
         '(radius x side stays below 2^32, the u32 product of the code), incl. several sides overflowing with different ratios. '
-        'rrect search on the implementation: p_rr_confine (sides fit, fitting radii unchanged, idempotent, never grows, contains() unchanged by '
+        'rrect search on the implementation: p_rr_builder (construction API vs struct literals, see the C05 part), p_rr_confine (sides fit, fitting radii unchanged, idempotent, never grows, contains() unchanged by '
         'confine_radii()), p_rr_zero (zero radii = Rectangle: contains over box+2 and points()), p_rr_half (even sides, radii = half sides = Ellipse: all '
         'ra,rb in 0..16 exhaustively + random up to 60; oversized equal radii are confined back), p_rr_contig (rows and columns of contains() contiguous), '
         'p_rr_band (corner pixels vs the ideal quarter ellipse, half-pixel band).')
@@ -46,6 +46,9 @@ def cases(tier, rng):
 
 def search(tier, rng):
     yield J('p_rr_confine', 0, 0, 100, 10, 60, 10, 50, 0, 0, 0, 0, 9)
+    yield J('p_rr_builder', 3, -2, 20, 30, 1, 2, 3, 4, 5, 6, 7, 8)
+    for _ in range(500 if tier == 'quick' else 20000):
+        yield J('p_rr_builder', *conf(rng))
     for ra in range(17):
         for rb in range(17):
             yield J('p_rr_half', -3, 4, ra, rb, 1 + (ra + rb) % 3)
